@@ -41,11 +41,6 @@ func (c *Client) VerifAttachConn(conn net.Conn) {
 	c.decrypter = cipher.NewCBCDecrypter(cb, iv[:])
 }
 
-// VerifState reports whether the client holds a connection and considers it authenticated.
-func (c *Client) VerifState() (connected bool, authenticated bool) {
-	return c.conn != nil, c.isAuthenticated
-}
-
 func (c *Client) VerifConfig() ClientConfig { return c.config }
 
 // VerifConnString is the address the client dials
